@@ -31,10 +31,10 @@ pub fn c13__eval_add_sub_scalar() {
     let d = polynom::sub(&b, &a);
     let m = polynom::mul_by_scalar(&a, k);
     assert!(s.len() == 4 && d.len() == 4 && m.len() == 4);
-    assert!(ev(&s, x) == ev(&a, x) + ev(&b, x));
-    assert!(ev(&d, x) == ev(&b, x) - ev(&a, x));
-    assert!(ev(&m, x) == ev(&a, x) * k);
-    assert!(s[3] == a[3] && d[3] == -a[3] && s[0] == a[0] + b[0]);
+    // coefficient-wise (the shorter operand is zero-extended)
+    assert!(s[0] == a[0] + b[0] && s[1] == a[1] + b[1] && s[2] == a[2] && s[3] == a[3]);
+    assert!(d[0] == b[0] - a[0] && d[1] == b[1] - a[1] && d[2] == -a[2] && d[3] == -a[3]);
+    assert!(m[0] == a[0] * k && m[1] == a[1] * k && m[2] == a[2] * k && m[3] == a[3] * k);
     kani::cover!(a[3] != F17::ZERO && x != F17::ZERO, "VERIF-COVER");
     core::mem::forget((many, s, d, m));
 }
